@@ -260,8 +260,8 @@ PROPS = {
                  "decreases); CL shares never reach an account; failed op is a no-op; model tied to the real msg server/keeper by differential run",
  },
  "C03": {
-  "modules": ["OsmoVerif.Props.C03"],
-  "min_theorems": 50,
+  "modules": ["OsmoVerif.Props.C03", "OsmoVerif.Props.C03Limit", "OsmoVerif.Props.C03Dust", "OsmoVerif.Props.C03Ideal"],
+  "min_theorems": 101,
   "fingerprints": ["CL.*"],
   "engines": [{"name": "clmath", "kind": "pure", "n": {"quick": 40000, "thorough": 500000}, "shards": {"quick": 4, "thorough": 16}},
               {"name": "cl", "kind": "app", "n": {"quick": 1500, "thorough": 20000}, "shards": {"quick": 4, "thorough": 16}, "env": NO_EXPORT_IMPORT}],
@@ -270,10 +270,13 @@ PROPS = {
           "to draining over overlapping/nested/abutting/gapped positions; distinct = distinct op lines",
   "trusted_base": ["osmomath arithmetic as proved in C12", "tick conversions as proved in C14"],
   "assumptions": ["whole-swap theorems (`swap_vs_exact_curve_reachable`, `swap_shortfall_bounded`, `there_and_back_no_profit`) hold for every state satisfying the C07 invariant, "
-                  "hence for every reachable state with tick spacing > 0 and spread factor in [0, 1/2] (`SpfOK`; covers every authorised spread factor); swaps run with the "
-                  "execution or the estimate price limit (a caller-supplied sqrt-price limit strictly inside is not covered by the unconditional forms)",
-                  "bounded rounding is stated against the exact curve between the ACTUAL start and end sqrt prices of every step; for exact-out the out side is capped by the request and "
-                  "only the in side is bounded; the cl engine's oracle additionally compares with the ideal for the amount (2*steps+4 units) on the real keeper",
+                  "hence for every reachable state with tick spacing > 0 and spread factor in [0, 1/2] (`SpfOK`; covers every authorised spread factor); Props/C03 runs with the "
+                  "execution or the estimate price limit, Props/C03Limit with ANY caller-supplied price limit (finding `price_passes_limit_witness`: an exact-in swap with a positive spread "
+                  "factor can end beyond a limit strictly inside a bucket, by less than one token's worth, only in its last step and only when completely filled)",
+                  "bounded rounding (Props/C03 §9) is stated against the exact curve between the ACTUAL start and end sqrt prices of every step; the comparison with the ideal for the SAME "
+                  "amount is Props/C03Ideal (ideal walk Spec/CLCurve.lean in exact rationals): amount out <= idealOut(net in) for both kinds, exact-in amount out > idealOut(net consumed - sumInSlack) "
+                  "- steps*outLossU - 1 token, exact-out idealOut(charged less its roundings) <= delivered + sumOutSlack; the slacks are about one token per step plus liquidity*10^-24 "
+                  "(price rounding), so the engine's 2*steps+4 units hold for liquidity below 10^24 tokens; the cl engine's oracle checks the same on the real keeper",
                   "estimates leaving state untouched is structural in the model (pure function) and checked on the implementation by store digests"],
   "explanation": "theorems are proved THROUGH the regenerated operator lists (Gen.CL.ops_*): a changed rounding operator in the Go source changes the model and breaks the unfolding obligations",
  },
